@@ -317,7 +317,7 @@ def r2_index_fields(ctx, rule_id="R-C07-2"):
     if missing:
         raise CheckError("%s: the %s remap table(s) of merge_bytecode could not be identified by their feeding calls (anchor drifted)" % (R, missing))
     TCG = ("HashMap::get", "Option::copied", "Option::cloned", "Option::unwrap_or", "Option::unwrap", "Option::map", "Option::unwrap_or_else", "Deref::deref",
-           "Clone::clone", "Option::expect", "Option::map_or", "Option::unwrap_or_default")
+           "Clone::clone", "Option::expect", "Option::map_or", "Option::unwrap_or_default", "environment::remap_type_id")
     inl_blocks = {bi for bi, blk in enumerate(mbi.blocks) if blk.get("inl")}
     rebuilt = {}
     for bi, si, st in agg_sites(mbi, "bytecode::Instruction"):
@@ -511,11 +511,20 @@ def r7_emitted_stack_discipline(ctx, rule_id="R-C07-7"):
     results, summaries = emit.analyse_all(F, rounds=3, limit=12000)
     path = os.path.join(VERIF, "rules", "tables", "c07_emit.json")
     table = json.load(open(path)) if os.path.exists(path) else {"contracts": {}}
+    # conditional contracts: functions whose effect depends only on flag / Option PARAMETERS (per combination: net effect, heights of tail calls)
+    conds = {}
+    for k, a in results.items():
+        if k in summaries or "::{closure" in k or a.unknown_at or a.conflicts:
+            continue
+        c = a.conditional()
+        if c and all("?" not in v["ret"] for v in c.values()) and any(v["at"] or v["ret"] != ["dead"] for v in c.values()):
+            conds[k] = c
     if os.environ.get("QV_C07_GEN") == "1":
         json.dump({"contracts": {k: {"ret": v["ret"], "labels": {str(a): b for a, b in v["labels"].items()}} for k, v in sorted(summaries.items())
-                                 if "::{closure" not in k}},
+                                 if "::{closure" not in k},
+                   "conditional": {k: v for k, v in sorted(conds.items())}},
                   open(path, "w"), indent=1)
-        ctx.note("%s: contract table regenerated (%d functions)" % (R, len(summaries)))
+        ctx.note("%s: contract table regenerated (%d + %d functions)" % (R, len(summaries), len(conds)))
         return
     n_obl = 0
     decided = 0
@@ -547,6 +556,22 @@ def r7_emitted_stack_discipline(ctx, rule_id="R-C07-7"):
                           "the emitted code of %s now changes the stack height by %+d with label jumps at %s (reviewed contract: %+d, %s): its callers "
                           "(which cannot be analysed: data-dependent) still assume the old effect" % (k.split("::")[-1], sm["ret"], labs, ent["ret"], ent["labels"]),
                           a.body.loc(0))
+    for k, ent in sorted((table.get("conditional") or {}).items()):
+        a = results.get(k)
+        cur = conds.get(k)
+        if a is None or cur is None:
+            ctx.note("%s: %s no longer has a parameter-determined stack effect — not decided" % (R, k.split("::")[-1]))
+            continue
+        decided += 1
+        for facts, want in sorted(ent.items()):
+            got_ = cur.get(facts)
+            if got_ is None:
+                continue      # that combination of parameter facts no longer reaches a return: nothing to compare
+            ok = got_ == want
+            ctx.check(ok, R, "%s|contract[%s]" % (k, facts), "net effect %s, tail calls / label jumps at %s (as reviewed)" % (want["ret"], want["at"] or "-"),
+                      "with the parameters %s the emitted code of %s now has net effect %s and tail calls / label jumps at %s (reviewed: %s, %s): e.g. a "
+                      "tail call executing one cell higher leaves a dead operand-stack cell per iteration" % (
+                          facts, k.split("::")[-1], got_["ret"], got_["at"], want["ret"], want["at"]), a.body.loc(0))
     if not n_conf:
         ctx.floor(R, "generator functions with a decided contract", decided, 6)
         ctx.floor(R, "emitted-join equalities discharged", n_obl, 4)
